@@ -1,3 +1,42 @@
-(* C10 - placeholder (DESIGN.md 7 C10). *)
-From DL Require Import Base Context.
-Example C10_placeholder : True. Proof. exact I. Qed.
+(* C10 - optional hints: None is skipped, everything else is still checked.
+   For DLTypeContext.add (add_loop): at an optional annotation the value None contributes nothing and the loop
+   goes on with the next position (so later elements of the same tuple are still queued); at a non-optional
+   annotation None is the unsupported-type error; a value that is present is queued and later asserted exactly
+   as under the non-optional hint (assert_one does not read the flag).  For from_hint: `T | None` is the hint T
+   with the flag set; a union with any number of non-None alternatives other than one is TypeError. *)
+From DL Require Import Base Lexer Parser Eval Shape Dtypes Check Context Hints Call Structural.
+
+Theorem C10_none_skipped : forall name idx an anns vals q, a_opt an = true ->
+  add_loop name idx (Some an :: anns) (VNone :: vals) q = add_loop name (S idx) anns vals q.
+Proof. exact add_optional_none. Qed.
+Theorem C10_non_optional_none : forall name idx an anns vals q, a_opt an = false ->
+  add_loop name idx (Some an :: anns) (VNone :: vals) q = DRej EUnsupported.
+Proof. exact add_required_none. Qed.
+Theorem C10_present_value_as_under_T : forall c t o,
+  assert_one c {| c_idx := c_idx t; c_name := c_name t; c_tensor := c_tensor t; c_annot := set_opt (c_annot t) o |} = assert_one c t.
+Proof. exact assert_one_ignores_optional. Qed.
+Theorem C10_optional_hint : forall t o, from_hint (HUnion [t]) o = from_hint t true.
+Proof. exact optional_is_union_with_none. Qed.
+Theorem C10_general_union : forall alts o, length alts <> 1 -> from_hint (HUnion alts) o = Err TypeErr.
+Proof. exact general_union_refused. Qed.
+(* a union refused by from_hint is refused when the function is decorated (whatever the other hints are, as long
+   as resolving them raises nothing but TypeError - from_hint raises nothing else) *)
+Lemma hints_of_union ps : forall n alts, In (n, HUnion alts) ps -> length alts <> 1 ->
+  (forall m h, In (m, h) ps -> from_hint h false = Err TypeErr \/ exists r, from_hint h false = Ok r) ->
+  hints_of ps = Err TypeErr.
+Proof.
+  induction ps as [|[m0 h0] ps IH]; intros n alts Hin Hl Hall; [destruct Hin|]. simpl.
+  destruct Hin as [Heq|Hin].
+  - injection Heq as -> ->. rewrite (general_union_refused alts false Hl). reflexivity.
+  - destruct (Hall m0 h0 (or_introl eq_refl)) as [Hr|[r Hr]]; rewrite Hr; cbn [bind]; [reflexivity|].
+    rewrite (IH n alts Hin Hl (fun m' h' Hin' => Hall m' h' (or_intror Hin'))). reflexivity.
+Qed.
+Theorem C10_union_refused_at_decoration : forall f n alts, In (n, HUnion alts) (f_params f) -> length alts <> 1 ->
+  (forall m h, In (m, h) (f_params f) -> from_hint h false = Err TypeErr \/ exists r, from_hint h false = Ok r) ->
+  f_provider f <> PSelf -> decorate true f = DecError TypeErr.
+Proof.
+  intros f n alts Hin Hl Hall Hp. unfold decorate. cbn [negb].
+  rewrite (hints_of_union _ n alts Hin Hl Hall). destruct (f_provider f); try congruence; reflexivity.
+Qed.
+Redirect "C10.assumptions.1" Print Assumptions C10_none_skipped.
+Redirect "C10.assumptions.2" Print Assumptions C10_union_refused_at_decoration.
